@@ -61,12 +61,12 @@ PROPS = {
     },
     "C14": {
         "pkg": "sqlite", "level": "fault_enumeration",
-        "quick": {"stages": [st("^TestC14Fault", 150), st("^TestC14Reopen", 60), st("^TestC14LargeBatch", 4)]},
-        "thorough": {"stages": [st("^TestC14Fault", 1500, shards=8, timeout=3000), st("^TestC14Reopen", 600, shards=5, timeout=3000), st("^TestC14LargeBatch", 40, shards=3, timeout=3000)]},
+        "quick": {"stages": [st("^TestC14Fault", 150), st("^TestC14Reopen", 400, shards=4), st("^TestC14LargeBatch", 4)]},
+        "thorough": {"stages": [st("^TestC14Fault", 1500, shards=8, timeout=3000), st("^TestC14Reopen", 6000, shards=6, timeout=3000), st("^TestC14LargeBatch", 40, shards=3, timeout=3000)]},
     },
     "C12": {
         "pkg": "session", "level": "exploration",
-        "quick": {"stages": [st("^TestC12Session", 500), st("^TestC12LongLivedRelay", 12, shards=3), st("^TestC12FanOut", 40, shards=2), st("^TestC12SlowReader", 2), st("^TestC12SteadyReader", 3), st("^TestC12CloseAfterBurst", 100, shards=2), st("^TestC12Regress", 1)]},
+        "quick": {"stages": [st("^TestC12Session", 500), st("^TestC12LongLivedRelay", 12, shards=3), st("^TestC12FanOut", 40, shards=2), st("^TestC12SlowReader", 2), st("^TestC12SteadyReader", 6, shards=3), st("^TestC12CloseAfterBurst", 100, shards=2), st("^TestC12Regress", 1)]},
         "thorough": {"stages": [st("^TestC12Session", 6000, shards=12, timeout=3000), st("^TestC12Session", 800, shards=4, race=True, timeout=3000), st("^TestC12LongLivedRelay", 300, shards=4, timeout=3000), st("^TestC12FanOut", 1500, shards=4, timeout=3000), st("^TestC12FanOut", 100, shards=2, race=True, timeout=3000), st("^TestC12SlowReader", 12, shards=3, timeout=3000), st("^TestC12SteadyReader", 40, shards=4, timeout=3000), st("^TestC12CloseAfterBurst", 4000, shards=4, timeout=3000), st("^TestC12Regress", 1)]},
     },
     "C13": {
